@@ -182,3 +182,44 @@ func ZZ_C20_keysRoundTrip() {
 	zz.Assert("distpublic_same", dp2.Equal(dp) && bytes.Equal(dp2.Hash(), dp.Hash()))
 	_ = dkg.MinimumT
 }
+
+func init() { zz.Register("ZZ_C20_fileStore", ZZ_C20_fileStore) }
+
+// ZZ_C20_fileStore: what a node reloads from its key folder is what was written LAST, also when a file is
+// rewritten with different (shorter or longer) content: group file and share across two epochs.
+func ZZ_C20_fileStore() {
+	sch := zzSchemeParam()
+	dir := zz.TempDir("c20store")
+	st := key.NewFileStore(dir, "default")
+	n1, n2 := zz.Param("n_first", 3), zz.Param("n_second", 2)
+	mk := func(n int, tag string) (*key.Group, *key.Share) {
+		var pairs []*key.Pair
+		for i := 0; i < n; i++ {
+			pairs = append(pairs, zzfake.KeyPair(sch, fmt.Sprintf("node%d.example:%d", i, 5000+i), fmt.Sprintf("c20fs-%d", i)))
+		}
+		t := key.MinimumT(n)
+		ep := zzfake.Deal(sch, n, t, "c20fs-secret", "c20fs-"+tag)
+		g := zzfake.Group(sch, pairs, t, 30*time.Second, 1700000000, ep, "")
+		g.GenesisSeed = []byte("seed")
+		return g, ep.Share(sch, 0)
+	}
+	g1, s1 := mk(n1, "epoch1")
+	g2, s2 := mk(n2, "epoch2")
+	g2.TransitionTime = 1700003000
+	zz.Assert("save_group_1", st.SaveGroup(g1) == nil)
+	zz.Assert("save_share_1", st.SaveShare(s1) == nil)
+	l1, err := st.LoadGroup()
+	zz.Assert("first_group_reloads", err == nil && l1 != nil && l1.Equal(g1))
+	zz.Assert("save_group_2", st.SaveGroup(g2) == nil)
+	zz.Assert("save_share_2", st.SaveShare(s2) == nil)
+	l2, err := st.LoadGroup()
+	zz.Assert("rewritten_group_reloads", err == nil && l2 != nil)
+	if err == nil && l2 != nil {
+		zz.Assert("rewritten_group_is_the_last_written", l2.Equal(g2) && bytes.Equal(l2.Hash(), g2.Hash()))
+	}
+	ls, err := st.LoadShare()
+	zz.Assert("rewritten_share_reloads", err == nil && ls != nil)
+	if err == nil && ls != nil {
+		zz.Assert("rewritten_share_is_the_last_written", ls.Share.I == s2.Share.I && ls.Share.V.Equal(s2.Share.V) && ls.Public().Equal(s2.Public()))
+	}
+}
